@@ -6,8 +6,12 @@ CentralController / Configuration classes (property C16).
                 the set of configurations, iteration, the operator catalogue, and -- for helper
                 generated structures -- the documented shape of what the helper returns.
 `replay_paths`  operator sequences with the configuration the specification expects after each
-                step.
-Both return {'n': evaluations, 'mismatches': [{'key', 'detail', 'match'}], ...}; they never
+                step (also the histories of BehindSpec: one controller moved individually, then the
+                configuration re-selected / an operator given the configuration held before).
+`replay_confobj` histories of one Configuration object (ConfSpec: create / read / assign).
+`check_order`   structures whose catalogs list the names of a shared controller in another order:
+                verdict of the specification against what the constructors do.
+All return {'n': evaluations, 'mismatches': [{'key', 'detail', 'match'}], ...}; they never
 decide anything themselves beyond comparing with the printed expectations.
 """
 
